@@ -352,9 +352,13 @@ def work(i):
 def collision_scenarios():
     if ck.quick:
         return [dict(config='pfs', kinds=('acquire', 'soft', 'rekey_ike'), budget=dict(trig=2, fault=0)),
-                dict(config='ke-mismatch', kinds=('acquire', 'soft', 'rekey_ike'), budget=dict(trig=2, fault=0))]
+                dict(config='ke-mismatch', kinds=('acquire', 'soft', 'rekey_ike'), budget=dict(trig=2, fault=0)),
+                # two IKE_SAs per endpoint for the one connection (both initiated at once), INVALID_KE retries on the way
+                dict(config='ke-mismatch', start='double', kinds=('soft', 'rekey_ike'), budget=dict(trig=2, fault=0))]
     return [dict(config=c, kinds=('acquire', 'soft', 'hard', 'rekey_ike'), budget=b)
-            for c in ('pfs', 'ke-mismatch', 'match') for b in (dict(trigA=2, trigB=2, fault=0), dict(trig=2, fault=1))]
+            for c in ('pfs', 'ke-mismatch', 'match') for b in (dict(trigA=2, trigB=2, fault=0), dict(trig=2, fault=1))] + \
+        [dict(config='ke-mismatch', start='double', kinds=('acquire', 'soft', 'rekey_ike'), budget=dict(trig=3, fault=0)),
+         dict(config='ke-mismatch', start='double', kinds=('soft', 'rekey_ike'), timeouts=True, budget=dict(trig=2, fault=1, tick=2))]
 
 
 def sm_mirror(world):
@@ -370,6 +374,14 @@ def sm_mirror(world):
         if sig.startswith(('mirror:', 'alg-attributes', 'ike-keys-differ')) and sig not in seen:
             seen.add(sig)
             yield ('M-mirror', sig, msg)
+    if not any(e[0] in ('drop', 'timeout', 'tick', 'crash') for e in world.history):
+        # nothing was lost: every IKE_SA one endpoint considers established exists at the other under the same pair of SPIs
+        a, b = w.endpoints['A'], w.endpoints['B']
+        pa, pb = P.established_pairs(a), P.established_pairs(b)
+        C.COVER['M-mirror:ike-sa-pairs'] += len(pa & pb)
+        if pa != pb:
+            yield ('M-mirror', 'ike-sa-without-counterpart', 'established IKE_SAs (SPIi, SPIr) only at A: %s, only at B: %s' % (
+                sorted((x.hex(), y.hex()) for x, y in pa - pb), sorted((x.hex(), y.hex()) for x, y in pb - pa)))
 
 
 def run_collision(i):
